@@ -38,13 +38,14 @@ def per_source(htx):
     return d
 
 
-def run_up(root, cfg, fmt=None, quiet=False, cwd=None):
+def run_up(root, cfg, fmt=None, quiet=False, cwd=None, hashseed=None):
     args = ['up', cfg]
     if fmt:
         args += ['--format', fmt, '-v']
     if quiet:
         args.append('-q')
-    return B.tally(cwd or root, *args)
+    # (string hashing is randomised per process: nothing in a report may depend on it, so the runs use different seeds)
+    return B.tally(cwd or root, *args, env_extra={'PYTHONHASHSEED': str(hashseed)} if hashseed is not None else None)
 
 
 def judge(rec, rnd, tmp, k):
@@ -89,7 +90,7 @@ def judge(rec, rnd, tmp, k):
             f.write('Pattern,Merchant,Category,Subcategory\n.*,Decoy,Decoy,Decoy\n')
         rec.count('budgets_run_from_a_folder_with_same_named_files')
     # ---- JSON run
-    pj = run_up(root, cfg, 'json', cwd=cwd0)
+    pj = run_up(root, cfg, 'json', cwd=cwd0, hashseed=k % 8)
     rec.count('cli_runs')
     if pj.returncode != 0:
         rec.violation('tally-up-fails', f'exit {pj.returncode}: {(pj.stderr or pj.stdout)[-300:]}', case)
@@ -109,7 +110,7 @@ def judge(rec, rnd, tmp, k):
     if b['supplemental'] and ('orders: ' in pj.stdout and 'transactions' in [l for l in pj.stdout.splitlines() if l.strip().startswith('orders:')][0:1].__repr__()):
         rec.violation('supplemental-source-counted-as-transactions', 'the supplemental source is listed with a transaction count', case)
     # ---- HTML run
-    ph = run_up(root, cfg, cwd=cwd0)
+    ph = run_up(root, cfg, cwd=cwd0, hashseed=(k + 3) % 8)
     if cwd0:
         shutil.rmtree(cwd0, ignore_errors=True)
     rec.count('cli_runs')
@@ -495,6 +496,43 @@ def judge_transforms_without_rules(rec, tmp):
                       f'{a[0]} in months {a[1]}', case)
 
 
+def judge_one_file_two_sources(rec, tmp):
+    """A bank export with separate Debit and Credit columns is listed as TWO sources that read the same file with different format strings (the documented way
+    to read such files): every source is read, so debits and credits both arrive - also when the second entry spells the path differently."""
+    rows = [('2025-01-03', 'RENT', '1500.00', ''), ('2025-01-05', 'PAYROLL ACME', '', '3000.00'), ('2025-02-03', 'RENT', '1500.00', ''), ('2025-02-07', 'REFUND SHOP', '', '25.50'),
+            ('2025-02-09', 'GROCER', '92.15', '')]
+    for spell in ('data/bank.csv', './data/bank.csv', 'data/../data/bank.csv'):
+        root = os.path.join(tmp, 'two-src')
+        shutil.rmtree(root, ignore_errors=True)
+        os.makedirs(os.path.join(root, 'config'))
+        os.makedirs(os.path.join(root, 'data'))
+        with open(os.path.join(root, 'config', 'settings.yaml'), 'w') as f:
+            f.write('year: 2025\nmerchants_file: config/merchants.rules\ndata_sources:\n'
+                    '  - name: Bank debits\n    file: data/bank.csv\n    format: "{date:%Y-%m-%d},{description},{amount},{_}"\n'
+                    '  - name: Bank credits\n    file: ' + spell + '\n    format: "{date:%Y-%m-%d},{description},{_},{-amount}"\n')
+        with open(os.path.join(root, 'config', 'merchants.rules'), 'w') as f:
+            f.write('[Rent]\nmatch: contains("RENT")\ncategory: Housing\n\n[Pay]\nmatch: contains("PAYROLL")\ncategory: Income\ntags: income\n')
+        with open(os.path.join(root, 'data', 'bank.csv'), 'w') as f:
+            f.write('Date,Description,Debit,Credit\n' + ''.join(','.join(r) + '\n' for r in rows))
+        p = run_up(root, os.path.join(root, 'config'), 'json')
+        rec.count('cli_runs')
+        rec.case()
+        rec.count('one_file_read_by_two_sources_checks')
+        case = {'kind': 'one-file-two-sources'}
+        try:
+            js = B.json_from_stdout(p.stdout)
+            got = sorted((m['name'], m['count'], round(m['total'], 2)) for m in js['merchants'])
+        except Exception:
+            got = 'no report (exit %d): %s' % (p.returncode, (p.stderr or p.stdout)[-150:])
+        want_n = len(rows)
+        if not isinstance(got, list) or sum(c for _, c, _ in got) != want_n or not any(t < 0 for _, _, t in got):
+            rec.violation('report-transactions-differ:source-not-read', f'one export read by two sources (debit column / credit column, second path spelled {spell!r}): '
+                          f'{want_n} transactions expected, 2 of them credits; the report has {got}', case)
+            shutil.rmtree(root, ignore_errors=True)
+            return
+        shutil.rmtree(root, ignore_errors=True)
+
+
 def judge_rerun_same_output(rec, rnd, tmp, k):
     """`tally up` run again into the same output folder after a statement or the rules changed: what is on disk afterwards is the report of the
     budget as it is NOW (page and, with --no-embedded-html, the files beside it), also when the new data has the same size as the old."""
@@ -560,6 +598,7 @@ def run(rec, shard, nshards, t):
             judge_rerun_same_output(rec, rnd, tmp, k)
         if shard == 0:
             judge_transforms_without_rules(rec, tmp)
+            judge_one_file_two_sources(rec, tmp)
             b = B.gen_budget(rnd)
             rec.sample({'settings': B.settings_dict(b), 'first_file': b['sources'][0]['text'][:300]})
     finally:
@@ -571,6 +610,9 @@ def replay(rec, case):
     rnd = core.rng_for('C11', 'replay')
     tmp = tempfile.mkdtemp(prefix='vt-c11-')
     try:
+        if case.get('kind') == 'one-file-two-sources':
+            judge_one_file_two_sources(rec, tmp)
+            return
         if case.get('kind') == 'transforms-without-rules':
             judge_transforms_without_rules(rec, tmp)
             return
